@@ -42,6 +42,10 @@ func TestModelSelfConsistency(t *testing.T) {
 				for _, ft := range faults {
 					stats["faults"]++
 					stats["fault:"+ft.Class]++
+					if ft.Class == "defaulted_removed" {
+						// not a fault: valid where the schema language fills the default in
+						continue
+					}
 					if err := v.Validate(def, ft.JSON); err == nil {
 						rt.Fatalf("%s: %s fault at %s accepted by the reference validator for %s\ndoc: %s\nfaulty: %s\n%s", f, ft.Class, ft.Path, def, d.JSON, ft.JSON, src)
 					}
